@@ -256,6 +256,8 @@ def cut_loop(ex, s, st, ordn, spec, lo, hi, step, elem_of):
         bind_target(ex, s, h, ex.read(h, elem_of, (k,), s, check=False))
     else:
         h.env[idxname] = k
+    if spec.get("head_hints"):
+        ex.apply_hints(h, spec["head_hints"], where)
     exits = []
     types = {}
     body_res = ex.exec_block(s.body, h)
